@@ -34,12 +34,12 @@ CLAIMS = {
     "C09": {"text": "All ~1300 ProblemKind API call sites agree with the generated method/category tables; every compiler's resulting_problem_kind is evaluated in a finite interpreter on full/empty/single-feature inputs against a frozen entitlement/introduction table; factory threads the resulting kind.", "note": NOTE + " The entitlement table (tables/kind_transfer.json) encodes my reading of each _compile.", "technique": "finite abstract interpretation of the ProblemKind DSL; API/literal agreement sweep"},
     "C10": {"text": "Must-visit: every expression-bearing field of the model flows into the kind updaters (frozen table of 41 rows), every feature has a setter site, operator->feature guards are complete, the multi-agent updater agrees with Problem's.", "note": NOTE + " tables/kind_visits.json is frozen from the model's field annotations.", "technique": "def-use flow-to-sink (must-visit) over a frozen position table"},
     "C11": {"text": "Exact arithmetic in the simplifier, the occurs check of existential elimination tests the right kind of object against the free variables of the right term, operator exhaustiveness.", "note": NOTE, "technique": "exact-arithmetic lint with reaching definitions; annotation-driven entity/expression confusion rule; walker handler resolution"},
-    "C12": {"text": "True and false have distinct representations in Dnf.walk_and; NNF polarity table (negation, De Morgan, implication, equivalence, atoms); operator exhaustiveness.", "note": NOTE + " The polarity-table clause matches the current stack-machine shape of get_nnf_expression (tier-B, see DESIGN section 9).", "technique": "contradiction rule + syntactic decision table"},
+    "C12": {"text": "True and false have distinct representations in Dnf.walk_and; NNF polarity table (negation, De Morgan, implication, equivalence, atoms); operator exhaustiveness.", "note": NOTE + " The NNF clause is decided by interpreting the syntax tree on abstract formulas (no repository code runs); the polarity-table extractor is the fallback outside the interpreter's fragment.", "technique": "contradiction rule + finite interpretation of the syntax tree of get_nnf_expression on all formulas of depth <= 2 (syntactic decision table as fallback)"},
     "C13": {"text": "Rejection before rewriting, bound-variable filter and fresh substituter for quantifier bodies, top-down no-resubstitution lookup, memo invalidation.", "note": NOTE, "technique": "CFG must-pass-through + shape rules"},
     "C14": {"text": "All walkers inherit a stack/memo that must be restored on exceptional exit (exception-edge CFG), memo-key adequacy for the 24 walker classes, create_node stores a node only after the type check, evaluator fields restored.", "note": NOTE, "technique": "exception-safe-restore and validate-before-commit path rules on a CFG with implicit raise edges"},
     "C15": {"text": "Exact arithmetic in the type checker; the decision table of walk_equals is extracted by a three-valued abstract interpreter over the 5x5 type classes and checked for symmetry; operator exhaustiveness.", "note": NOTE, "technique": "finite abstract interpretation (decision-table extraction)"},
     "C16": {"text": "Ownership of FNode construction / fields / expression table, allocation only on a table miss with a fresh id, tuple children at all create_node sites, the documented constructor normalisations as guarded early returns.", "note": NOTE, "technique": "who-may-construct / who-may-write rules + dominating guards"},
-    "C17": {"text": "Sibling agreement walk_times / walk_div on how the sign of a fluent-free operand is known; linearity shape clauses.", "note": NOTE, "technique": "sibling-agreement rule over return shapes and consulted attributes"},
+    "C17": {"text": "Sibling agreement walk_times / walk_div on how the sign of a fluent-free operand is known; linearity shape clauses.", "note": NOTE, "technique": "sibling-agreement rule over return shapes and consulted attributes; finite interpretation of the syntax trees of walk_minus / walk_default on all operand-result combinations"},
     "C20": {"text": "Writer/reader operator tables are mutually inverse, numeric type-name vocabulary incl. infinities is handled by the matching reader branch, enum/message/metric coverage on both sides, equality usable, exact arithmetic.", "note": NOTE, "technique": "table agreement between sibling if-chains; vocabulary check"},
     "C22": {"text": "MRO-aware clone completeness for every class with clone() in unified_planning.model (state field = initialised and later mutated), container aliasing, eq/hash agreement and bidirectional dictionary comparison.", "note": NOTE, "technique": "field-set comparison over the class hierarchy (T8) + eq/hash attribute sets (T9)"},
     "C23": {"text": "Every store into the initial-value / default maps and every Effect built by add_*effect is dominated by a raising compatibility (and constant-ness) test; ActionInstance parameter checks; no model write before a raise.", "note": NOTE, "technique": "dominating-guard rule + write-then-raise path rule"},
@@ -50,7 +50,7 @@ CLAIMS = {
     "C31": {"text": "A plan is returned by the interpreted-functions planner only under a dominating VALID validation of that very plan against the original problem; SOLVED_OPTIMALLY only where incomplete is false, decreasing-weight powerset order, every status classified; dataclass hook spelling.", "note": NOTE, "technique": "dominance / must-pass-through + enum exhaustiveness"},
     "C32": {"text": "Per operation-mode branch, every optional requirement is asserted None or checked through the matching engine predicate; selection returns only checked engines, else raises; registry agreement.", "note": NOTE, "technique": "decision-table coverage over an if-chain + CFG exit rule"},
     "C33": {"text": "hash uses the same filtered view of the features as eq; operators do not mutate operands (alias analysis through a helper that may return its parameter); upgrade table completeness and deprecated-feature removal.", "note": NOTE, "technique": "may-return-parameter summary + mutator-on-alias rule; table agreement"},
-    "C34": {"text": "What counts as a precedence (all five filters dominate the append, failed filters end the translation), an order is reported only when every temporal constraint became a precedence, total order only with a unique leading task at every step, and the returned object carries the extracted precedences. The ordering procedure itself on concrete relations is not decided.", "note": NOTE, "technique": "dominating-guard facts + shape rules (ast/CFG)"},
+    "C34": {"text": "What counts as a precedence (all five filters dominate the append, failed filters end the translation), an order is reported only when every temporal constraint became a precedence, total order only with a unique leading task at every step, and the returned object carries the extracted precedences. _build_total_order is decided by interpreting its syntax tree on every precedence relation over at most 3 (thorough: 4) task names.", "note": NOTE, "technique": "dominating-guard facts (ast/CFG) + finite interpretation of the syntax tree of _build_total_order"},
     "C35": {"text": "Per-fluent default source consulted for the deterministic clone; hidden state drawn from all oneof/or constraints before the simulator exists; apply delegates to the simulator and reads observations from the successor.", "note": NOTE, "technique": "must-consult + CFG ordering"},
     "C36": {"text": "Reads and child creation do not write the state, lookup order values->ancestors->default->raise, updates win when the chain is flattened, eq/hash after condensation.", "note": NOTE + " Several clauses match the current shape of UPState (tier-B).", "technique": "no-store-through-self rule + shape rules"},
     "C38": {"text": "Every list-head token the PDDL writer emits is reserved; the two renaming maps are written together and only in one place; the substituted character class is exactly the complement of the identifier alphabet (regex syntax tree); keyword avoidance runs on the final spelling; ANML counterpart.", "note": NOTE, "technique": "vocabulary extraction from string literals; regex AST (re._parser); ownership rule"},
